@@ -22,9 +22,9 @@ func init() {
 		Real: "real: all of kvql from /repo's working tree; simulated: storage engine, caller",
 		NCases: func(tier string) int {
 			if tier == "thorough" {
-				return 1500000
+				return 20000000
 			}
-			return 60000
+			return 400000
 		},
 		Gen:    genC03,
 		Run:    runC03,
